@@ -35,7 +35,7 @@ ASSUMPTIONS = [
     "XML well-formedness in the presence of control characters is required only with strip_control=True",
     "characters that XML 1.0 cannot represent at all (U+FFFE, U+FFFF, lone surrogates) are not generated",
 ]
-PROBES = ["page box degenerate or displaced", "rotated or mirrored text", "earlier job aborted inside a form", "page selection: none", "page selection: first", "page selection: odd", "xml with exported images", "sink:StringIO", "sink:TextIOWrapper", "sink:BytesIO", "sink:mode-w", "sink:mode-wb", "sink:duck", "codec:utf-16-le", "codec:utf-32-le", "codec:latin-1", "special char in text", "control char in text", "astral char in text", "special char in font name", "special char in figure name", "strip_control", "figure", "shape", "image", "boxes_flow None", "vertical text box"]
+PROBES = ["strip_control with plain text", "text sink with a narrow codec argument", "page box degenerate or displaced", "rotated or mirrored text", "earlier job aborted inside a form", "page selection: none", "page selection: first", "page selection: odd", "xml with exported images", "sink:StringIO", "sink:TextIOWrapper", "sink:BytesIO", "sink:mode-w", "sink:mode-wb", "sink:duck", "codec:utf-16-le", "codec:utf-32-le", "codec:latin-1", "special char in text", "control char in text", "astral char in text", "special char in font name", "special char in figure name", "strip_control", "figure", "shape", "image", "boxes_flow None", "vertical text box"]
 TIERS = {
     "quick": {"batches": 16, "runs": 350, "budget_s": 90},
     "thorough": {"batches": 128, "runs": 500, "budget_s": 1200},
@@ -241,13 +241,14 @@ def make_sink(t, ctx, chars):
 
 
 # ------------------------------------------------------------------------------------ oracles
-def tree_text(item):
+def tree_text(item, stripc=False):
+    """stripc: the control characters of the leaf texts left out (the line breaks and form feeds of the structure stay)."""
     if isinstance(item, L.LTTextBox):
-        return "".join(tree_text(c) for c in item) + "\n"
+        return "".join(tree_text(c, stripc) for c in item) + "\n"
     if isinstance(item, L.LTContainer):
-        return "".join(tree_text(c) for c in item)
+        return "".join(tree_text(c, stripc) for c in item)
     if isinstance(item, L.LTText):
-        return item.get_text()
+        return strip(item.get_text()) if stripc else item.get_text()
     return ""
 
 
@@ -417,20 +418,32 @@ def run(tape, ctx, item=None):
     # ---------------- text output
     for _ in range(t.rint(2, 3, "ntext")):
         kind, sink, codec, read = make_sink(t, ctx, want_text)
-        cfg = "output=text sink=%s codec=%s laparams=%s pages=%s" % (kind, codec, lakey, selkind)
+        # a text sink receives characters: the codec argument has nothing to encode there, whatever it is
+        codec_arg = codec or t.pick(["utf-8", "utf-8", "ascii", "latin-1", "cp1252", "utf-16-le"], "text.codecarg")
+        # strip_control is an option of the XML output; asked for with plain text it may at most drop the control
+        # characters of the glyph texts, never the line breaks and form feeds that render the structure
+        stripc_t = t.coin(25, 100, "text.stripc")
+        if stripc_t:
+            ctx.probe("strip_control with plain text")
+        if not codec and codec_arg != "utf-8":
+            ctx.probe("text sink with a narrow codec argument")
+        cfg = "output=text sink=%s codec=%s strip_control=%s laparams=%s pages=%s" % (kind, codec_arg, stripc_t, lakey, selkind)
         try:
-            HL.extract_text_to_fp(io.BytesIO(data), sink, output_type="text", codec=codec or "utf-8", laparams=la(), page_numbers=sel)
+            HL.extract_text_to_fp(io.BytesIO(data), sink, output_type="text", codec=codec_arg, laparams=la(), page_numbers=sel, strip_control=stripc_t)
             got = read()
         except Exception as e:
             devs.append(Dev("C11:text:raise:%s@%s" % (type(e).__name__, where(e)), "%r; %s" % (e, cfg)))
             continue
-        if got != want_text:
+        if stripc_t and got != want_text and got == "".join(tree_text(p, True) + "\f" for p in pages):
+            pass  # the glyph texts without their control characters, the structure intact
+        elif got != want_text:
             n = next((i for i, (x, y) in enumerate(zip(got, want_text)) if x != y), min(len(got), len(want_text)))
             devs.append(Dev("C11:text:differs-from-tree" + (":binary-sink" if codec else ":text-sink"), "at char %d: output %r, tree gives %r; %s" % (n, got[max(0, n - 15) : n + 15], want_text[max(0, n - 15) : n + 15], cfg)))
         scen.append(cfg)
     try:
-        if HL.extract_text(io.BytesIO(data), laparams=la(), page_numbers=sel) != want_text:
-            devs.append(Dev("C11:extract_text-differs-from-tree", "laparams=%s" % lakey))
+        xcodec = t.pick(["utf-8", "utf-8", "ascii", "latin-1", "cp1252"], "extract_text.codec")
+        if HL.extract_text(io.BytesIO(data), laparams=la(), page_numbers=sel, codec=xcodec) != want_text:
+            devs.append(Dev("C11:extract_text-differs-from-tree", "laparams=%s codec=%s" % (lakey, xcodec)))
     except Exception as e:
         devs.append(Dev("C11:extract_text:raise:%s" % type(e).__name__, repr(e)))
     # ---------------- XML output
